@@ -105,77 +105,80 @@ Record st := {
   nclr : nat;
   lastv : option verdict;
   tainted : bool;
-  susp : bool
+  susp : bool;
+  ncall : nat
 }.
 
 Definition set_pstate (v : bool) (s : st) : st :=
-  {| pstate := v; slot := slot s; wk := wk s; tmo := tmo s; hnd := hnd s; ccheck := ccheck s; cbit := cbit s; cdis := cdis s; cco := cco s; para := para s; running := running s; rq := rq s; up := up s; ud := ud s; kp := kp s; kdur := kdur s; kdl := kdl s; un := un s; cn := cn s; tm := tm s; ntm := ntm s; now := now s; nested := nested s; dropping := dropping s; oldk := oldk s; holder := holder s; tcall := tcall s; tok0 := tok0 s; ctok := ctok s; wsrc := wsrc s; nclr := nclr s; lastv := lastv s; tainted := tainted s; susp := susp s |}.
+  {| pstate := v; slot := slot s; wk := wk s; tmo := tmo s; hnd := hnd s; ccheck := ccheck s; cbit := cbit s; cdis := cdis s; cco := cco s; para := para s; running := running s; rq := rq s; up := up s; ud := ud s; kp := kp s; kdur := kdur s; kdl := kdl s; un := un s; cn := cn s; tm := tm s; ntm := ntm s; now := now s; nested := nested s; dropping := dropping s; oldk := oldk s; holder := holder s; tcall := tcall s; tok0 := tok0 s; ctok := ctok s; wsrc := wsrc s; nclr := nclr s; lastv := lastv s; tainted := tainted s; susp := susp s; ncall := ncall s |}.
 Definition set_slot (v : bool) (s : st) : st :=
-  {| pstate := pstate s; slot := v; wk := wk s; tmo := tmo s; hnd := hnd s; ccheck := ccheck s; cbit := cbit s; cdis := cdis s; cco := cco s; para := para s; running := running s; rq := rq s; up := up s; ud := ud s; kp := kp s; kdur := kdur s; kdl := kdl s; un := un s; cn := cn s; tm := tm s; ntm := ntm s; now := now s; nested := nested s; dropping := dropping s; oldk := oldk s; holder := holder s; tcall := tcall s; tok0 := tok0 s; ctok := ctok s; wsrc := wsrc s; nclr := nclr s; lastv := lastv s; tainted := tainted s; susp := susp s |}.
+  {| pstate := pstate s; slot := v; wk := wk s; tmo := tmo s; hnd := hnd s; ccheck := ccheck s; cbit := cbit s; cdis := cdis s; cco := cco s; para := para s; running := running s; rq := rq s; up := up s; ud := ud s; kp := kp s; kdur := kdur s; kdl := kdl s; un := un s; cn := cn s; tm := tm s; ntm := ntm s; now := now s; nested := nested s; dropping := dropping s; oldk := oldk s; holder := holder s; tcall := tcall s; tok0 := tok0 s; ctok := ctok s; wsrc := wsrc s; nclr := nclr s; lastv := lastv s; tainted := tainted s; susp := susp s; ncall := ncall s |}.
 Definition set_wk (v : bool) (s : st) : st :=
-  {| pstate := pstate s; slot := slot s; wk := v; tmo := tmo s; hnd := hnd s; ccheck := ccheck s; cbit := cbit s; cdis := cdis s; cco := cco s; para := para s; running := running s; rq := rq s; up := up s; ud := ud s; kp := kp s; kdur := kdur s; kdl := kdl s; un := un s; cn := cn s; tm := tm s; ntm := ntm s; now := now s; nested := nested s; dropping := dropping s; oldk := oldk s; holder := holder s; tcall := tcall s; tok0 := tok0 s; ctok := ctok s; wsrc := wsrc s; nclr := nclr s; lastv := lastv s; tainted := tainted s; susp := susp s |}.
+  {| pstate := pstate s; slot := slot s; wk := v; tmo := tmo s; hnd := hnd s; ccheck := ccheck s; cbit := cbit s; cdis := cdis s; cco := cco s; para := para s; running := running s; rq := rq s; up := up s; ud := ud s; kp := kp s; kdur := kdur s; kdl := kdl s; un := un s; cn := cn s; tm := tm s; ntm := ntm s; now := now s; nested := nested s; dropping := dropping s; oldk := oldk s; holder := holder s; tcall := tcall s; tok0 := tok0 s; ctok := ctok s; wsrc := wsrc s; nclr := nclr s; lastv := lastv s; tainted := tainted s; susp := susp s; ncall := ncall s |}.
 Definition set_tmo (v : Z) (s : st) : st :=
-  {| pstate := pstate s; slot := slot s; wk := wk s; tmo := v; hnd := hnd s; ccheck := ccheck s; cbit := cbit s; cdis := cdis s; cco := cco s; para := para s; running := running s; rq := rq s; up := up s; ud := ud s; kp := kp s; kdur := kdur s; kdl := kdl s; un := un s; cn := cn s; tm := tm s; ntm := ntm s; now := now s; nested := nested s; dropping := dropping s; oldk := oldk s; holder := holder s; tcall := tcall s; tok0 := tok0 s; ctok := ctok s; wsrc := wsrc s; nclr := nclr s; lastv := lastv s; tainted := tainted s; susp := susp s |}.
+  {| pstate := pstate s; slot := slot s; wk := wk s; tmo := v; hnd := hnd s; ccheck := ccheck s; cbit := cbit s; cdis := cdis s; cco := cco s; para := para s; running := running s; rq := rq s; up := up s; ud := ud s; kp := kp s; kdur := kdur s; kdl := kdl s; un := un s; cn := cn s; tm := tm s; ntm := ntm s; now := now s; nested := nested s; dropping := dropping s; oldk := oldk s; holder := holder s; tcall := tcall s; tok0 := tok0 s; ctok := ctok s; wsrc := wsrc s; nclr := nclr s; lastv := lastv s; tainted := tainted s; susp := susp s; ncall := ncall s |}.
 Definition set_hnd (v : option nat) (s : st) : st :=
-  {| pstate := pstate s; slot := slot s; wk := wk s; tmo := tmo s; hnd := v; ccheck := ccheck s; cbit := cbit s; cdis := cdis s; cco := cco s; para := para s; running := running s; rq := rq s; up := up s; ud := ud s; kp := kp s; kdur := kdur s; kdl := kdl s; un := un s; cn := cn s; tm := tm s; ntm := ntm s; now := now s; nested := nested s; dropping := dropping s; oldk := oldk s; holder := holder s; tcall := tcall s; tok0 := tok0 s; ctok := ctok s; wsrc := wsrc s; nclr := nclr s; lastv := lastv s; tainted := tainted s; susp := susp s |}.
+  {| pstate := pstate s; slot := slot s; wk := wk s; tmo := tmo s; hnd := v; ccheck := ccheck s; cbit := cbit s; cdis := cdis s; cco := cco s; para := para s; running := running s; rq := rq s; up := up s; ud := ud s; kp := kp s; kdur := kdur s; kdl := kdl s; un := un s; cn := cn s; tm := tm s; ntm := ntm s; now := now s; nested := nested s; dropping := dropping s; oldk := oldk s; holder := holder s; tcall := tcall s; tok0 := tok0 s; ctok := ctok s; wsrc := wsrc s; nclr := nclr s; lastv := lastv s; tainted := tainted s; susp := susp s; ncall := ncall s |}.
 Definition set_ccheck (v : bool) (s : st) : st :=
-  {| pstate := pstate s; slot := slot s; wk := wk s; tmo := tmo s; hnd := hnd s; ccheck := v; cbit := cbit s; cdis := cdis s; cco := cco s; para := para s; running := running s; rq := rq s; up := up s; ud := ud s; kp := kp s; kdur := kdur s; kdl := kdl s; un := un s; cn := cn s; tm := tm s; ntm := ntm s; now := now s; nested := nested s; dropping := dropping s; oldk := oldk s; holder := holder s; tcall := tcall s; tok0 := tok0 s; ctok := ctok s; wsrc := wsrc s; nclr := nclr s; lastv := lastv s; tainted := tainted s; susp := susp s |}.
+  {| pstate := pstate s; slot := slot s; wk := wk s; tmo := tmo s; hnd := hnd s; ccheck := v; cbit := cbit s; cdis := cdis s; cco := cco s; para := para s; running := running s; rq := rq s; up := up s; ud := ud s; kp := kp s; kdur := kdur s; kdl := kdl s; un := un s; cn := cn s; tm := tm s; ntm := ntm s; now := now s; nested := nested s; dropping := dropping s; oldk := oldk s; holder := holder s; tcall := tcall s; tok0 := tok0 s; ctok := ctok s; wsrc := wsrc s; nclr := nclr s; lastv := lastv s; tainted := tainted s; susp := susp s; ncall := ncall s |}.
 Definition set_cbit (v : bool) (s : st) : st :=
-  {| pstate := pstate s; slot := slot s; wk := wk s; tmo := tmo s; hnd := hnd s; ccheck := ccheck s; cbit := v; cdis := cdis s; cco := cco s; para := para s; running := running s; rq := rq s; up := up s; ud := ud s; kp := kp s; kdur := kdur s; kdl := kdl s; un := un s; cn := cn s; tm := tm s; ntm := ntm s; now := now s; nested := nested s; dropping := dropping s; oldk := oldk s; holder := holder s; tcall := tcall s; tok0 := tok0 s; ctok := ctok s; wsrc := wsrc s; nclr := nclr s; lastv := lastv s; tainted := tainted s; susp := susp s |}.
+  {| pstate := pstate s; slot := slot s; wk := wk s; tmo := tmo s; hnd := hnd s; ccheck := ccheck s; cbit := v; cdis := cdis s; cco := cco s; para := para s; running := running s; rq := rq s; up := up s; ud := ud s; kp := kp s; kdur := kdur s; kdl := kdl s; un := un s; cn := cn s; tm := tm s; ntm := ntm s; now := now s; nested := nested s; dropping := dropping s; oldk := oldk s; holder := holder s; tcall := tcall s; tok0 := tok0 s; ctok := ctok s; wsrc := wsrc s; nclr := nclr s; lastv := lastv s; tainted := tainted s; susp := susp s; ncall := ncall s |}.
 Definition set_cdis (v : bool) (s : st) : st :=
-  {| pstate := pstate s; slot := slot s; wk := wk s; tmo := tmo s; hnd := hnd s; ccheck := ccheck s; cbit := cbit s; cdis := v; cco := cco s; para := para s; running := running s; rq := rq s; up := up s; ud := ud s; kp := kp s; kdur := kdur s; kdl := kdl s; un := un s; cn := cn s; tm := tm s; ntm := ntm s; now := now s; nested := nested s; dropping := dropping s; oldk := oldk s; holder := holder s; tcall := tcall s; tok0 := tok0 s; ctok := ctok s; wsrc := wsrc s; nclr := nclr s; lastv := lastv s; tainted := tainted s; susp := susp s |}.
+  {| pstate := pstate s; slot := slot s; wk := wk s; tmo := tmo s; hnd := hnd s; ccheck := ccheck s; cbit := cbit s; cdis := v; cco := cco s; para := para s; running := running s; rq := rq s; up := up s; ud := ud s; kp := kp s; kdur := kdur s; kdl := kdl s; un := un s; cn := cn s; tm := tm s; ntm := ntm s; now := now s; nested := nested s; dropping := dropping s; oldk := oldk s; holder := holder s; tcall := tcall s; tok0 := tok0 s; ctok := ctok s; wsrc := wsrc s; nclr := nclr s; lastv := lastv s; tainted := tainted s; susp := susp s; ncall := ncall s |}.
 Definition set_cco (v : cslot) (s : st) : st :=
-  {| pstate := pstate s; slot := slot s; wk := wk s; tmo := tmo s; hnd := hnd s; ccheck := ccheck s; cbit := cbit s; cdis := cdis s; cco := v; para := para s; running := running s; rq := rq s; up := up s; ud := ud s; kp := kp s; kdur := kdur s; kdl := kdl s; un := un s; cn := cn s; tm := tm s; ntm := ntm s; now := now s; nested := nested s; dropping := dropping s; oldk := oldk s; holder := holder s; tcall := tcall s; tok0 := tok0 s; ctok := ctok s; wsrc := wsrc s; nclr := nclr s; lastv := lastv s; tainted := tainted s; susp := susp s |}.
+  {| pstate := pstate s; slot := slot s; wk := wk s; tmo := tmo s; hnd := hnd s; ccheck := ccheck s; cbit := cbit s; cdis := cdis s; cco := v; para := para s; running := running s; rq := rq s; up := up s; ud := ud s; kp := kp s; kdur := kdur s; kdl := kdl s; un := un s; cn := cn s; tm := tm s; ntm := ntm s; now := now s; nested := nested s; dropping := dropping s; oldk := oldk s; holder := holder s; tcall := tcall s; tok0 := tok0 s; ctok := ctok s; wsrc := wsrc s; nclr := nclr s; lastv := lastv s; tainted := tainted s; susp := susp s; ncall := ncall s |}.
 Definition set_para (v : option perr) (s : st) : st :=
-  {| pstate := pstate s; slot := slot s; wk := wk s; tmo := tmo s; hnd := hnd s; ccheck := ccheck s; cbit := cbit s; cdis := cdis s; cco := cco s; para := v; running := running s; rq := rq s; up := up s; ud := ud s; kp := kp s; kdur := kdur s; kdl := kdl s; un := un s; cn := cn s; tm := tm s; ntm := ntm s; now := now s; nested := nested s; dropping := dropping s; oldk := oldk s; holder := holder s; tcall := tcall s; tok0 := tok0 s; ctok := ctok s; wsrc := wsrc s; nclr := nclr s; lastv := lastv s; tainted := tainted s; susp := susp s |}.
+  {| pstate := pstate s; slot := slot s; wk := wk s; tmo := tmo s; hnd := hnd s; ccheck := ccheck s; cbit := cbit s; cdis := cdis s; cco := cco s; para := v; running := running s; rq := rq s; up := up s; ud := ud s; kp := kp s; kdur := kdur s; kdl := kdl s; un := un s; cn := cn s; tm := tm s; ntm := ntm s; now := now s; nested := nested s; dropping := dropping s; oldk := oldk s; holder := holder s; tcall := tcall s; tok0 := tok0 s; ctok := ctok s; wsrc := wsrc s; nclr := nclr s; lastv := lastv s; tainted := tainted s; susp := susp s; ncall := ncall s |}.
 Definition set_running (v : bool) (s : st) : st :=
-  {| pstate := pstate s; slot := slot s; wk := wk s; tmo := tmo s; hnd := hnd s; ccheck := ccheck s; cbit := cbit s; cdis := cdis s; cco := cco s; para := para s; running := v; rq := rq s; up := up s; ud := ud s; kp := kp s; kdur := kdur s; kdl := kdl s; un := un s; cn := cn s; tm := tm s; ntm := ntm s; now := now s; nested := nested s; dropping := dropping s; oldk := oldk s; holder := holder s; tcall := tcall s; tok0 := tok0 s; ctok := ctok s; wsrc := wsrc s; nclr := nclr s; lastv := lastv s; tainted := tainted s; susp := susp s |}.
+  {| pstate := pstate s; slot := slot s; wk := wk s; tmo := tmo s; hnd := hnd s; ccheck := ccheck s; cbit := cbit s; cdis := cdis s; cco := cco s; para := para s; running := v; rq := rq s; up := up s; ud := ud s; kp := kp s; kdur := kdur s; kdl := kdl s; un := un s; cn := cn s; tm := tm s; ntm := ntm s; now := now s; nested := nested s; dropping := dropping s; oldk := oldk s; holder := holder s; tcall := tcall s; tok0 := tok0 s; ctok := ctok s; wsrc := wsrc s; nclr := nclr s; lastv := lastv s; tainted := tainted s; susp := susp s; ncall := ncall s |}.
 Definition set_rq (v : nat) (s : st) : st :=
-  {| pstate := pstate s; slot := slot s; wk := wk s; tmo := tmo s; hnd := hnd s; ccheck := ccheck s; cbit := cbit s; cdis := cdis s; cco := cco s; para := para s; running := running s; rq := v; up := up s; ud := ud s; kp := kp s; kdur := kdur s; kdl := kdl s; un := un s; cn := cn s; tm := tm s; ntm := ntm s; now := now s; nested := nested s; dropping := dropping s; oldk := oldk s; holder := holder s; tcall := tcall s; tok0 := tok0 s; ctok := ctok s; wsrc := wsrc s; nclr := nclr s; lastv := lastv s; tainted := tainted s; susp := susp s |}.
+  {| pstate := pstate s; slot := slot s; wk := wk s; tmo := tmo s; hnd := hnd s; ccheck := ccheck s; cbit := cbit s; cdis := cdis s; cco := cco s; para := para s; running := running s; rq := v; up := up s; ud := ud s; kp := kp s; kdur := kdur s; kdl := kdl s; un := un s; cn := cn s; tm := tm s; ntm := ntm s; now := now s; nested := nested s; dropping := dropping s; oldk := oldk s; holder := holder s; tcall := tcall s; tok0 := tok0 s; ctok := ctok s; wsrc := wsrc s; nclr := nclr s; lastv := lastv s; tainted := tainted s; susp := susp s; ncall := ncall s |}.
 Definition set_up (v : upc) (s : st) : st :=
-  {| pstate := pstate s; slot := slot s; wk := wk s; tmo := tmo s; hnd := hnd s; ccheck := ccheck s; cbit := cbit s; cdis := cdis s; cco := cco s; para := para s; running := running s; rq := rq s; up := v; ud := ud s; kp := kp s; kdur := kdur s; kdl := kdl s; un := un s; cn := cn s; tm := tm s; ntm := ntm s; now := now s; nested := nested s; dropping := dropping s; oldk := oldk s; holder := holder s; tcall := tcall s; tok0 := tok0 s; ctok := ctok s; wsrc := wsrc s; nclr := nclr s; lastv := lastv s; tainted := tainted s; susp := susp s |}.
+  {| pstate := pstate s; slot := slot s; wk := wk s; tmo := tmo s; hnd := hnd s; ccheck := ccheck s; cbit := cbit s; cdis := cdis s; cco := cco s; para := para s; running := running s; rq := rq s; up := v; ud := ud s; kp := kp s; kdur := kdur s; kdl := kdl s; un := un s; cn := cn s; tm := tm s; ntm := ntm s; now := now s; nested := nested s; dropping := dropping s; oldk := oldk s; holder := holder s; tcall := tcall s; tok0 := tok0 s; ctok := ctok s; wsrc := wsrc s; nclr := nclr s; lastv := lastv s; tainted := tainted s; susp := susp s; ncall := ncall s |}.
 Definition set_ud (v : option Z) (s : st) : st :=
-  {| pstate := pstate s; slot := slot s; wk := wk s; tmo := tmo s; hnd := hnd s; ccheck := ccheck s; cbit := cbit s; cdis := cdis s; cco := cco s; para := para s; running := running s; rq := rq s; up := up s; ud := v; kp := kp s; kdur := kdur s; kdl := kdl s; un := un s; cn := cn s; tm := tm s; ntm := ntm s; now := now s; nested := nested s; dropping := dropping s; oldk := oldk s; holder := holder s; tcall := tcall s; tok0 := tok0 s; ctok := ctok s; wsrc := wsrc s; nclr := nclr s; lastv := lastv s; tainted := tainted s; susp := susp s |}.
+  {| pstate := pstate s; slot := slot s; wk := wk s; tmo := tmo s; hnd := hnd s; ccheck := ccheck s; cbit := cbit s; cdis := cdis s; cco := cco s; para := para s; running := running s; rq := rq s; up := up s; ud := v; kp := kp s; kdur := kdur s; kdl := kdl s; un := un s; cn := cn s; tm := tm s; ntm := ntm s; now := now s; nested := nested s; dropping := dropping s; oldk := oldk s; holder := holder s; tcall := tcall s; tok0 := tok0 s; ctok := ctok s; wsrc := wsrc s; nclr := nclr s; lastv := lastv s; tainted := tainted s; susp := susp s; ncall := ncall s |}.
 Definition set_kp (v : kpc) (s : st) : st :=
-  {| pstate := pstate s; slot := slot s; wk := wk s; tmo := tmo s; hnd := hnd s; ccheck := ccheck s; cbit := cbit s; cdis := cdis s; cco := cco s; para := para s; running := running s; rq := rq s; up := up s; ud := ud s; kp := v; kdur := kdur s; kdl := kdl s; un := un s; cn := cn s; tm := tm s; ntm := ntm s; now := now s; nested := nested s; dropping := dropping s; oldk := oldk s; holder := holder s; tcall := tcall s; tok0 := tok0 s; ctok := ctok s; wsrc := wsrc s; nclr := nclr s; lastv := lastv s; tainted := tainted s; susp := susp s |}.
+  {| pstate := pstate s; slot := slot s; wk := wk s; tmo := tmo s; hnd := hnd s; ccheck := ccheck s; cbit := cbit s; cdis := cdis s; cco := cco s; para := para s; running := running s; rq := rq s; up := up s; ud := ud s; kp := v; kdur := kdur s; kdl := kdl s; un := un s; cn := cn s; tm := tm s; ntm := ntm s; now := now s; nested := nested s; dropping := dropping s; oldk := oldk s; holder := holder s; tcall := tcall s; tok0 := tok0 s; ctok := ctok s; wsrc := wsrc s; nclr := nclr s; lastv := lastv s; tainted := tainted s; susp := susp s; ncall := ncall s |}.
 Definition set_kdur (v : option Z) (s : st) : st :=
-  {| pstate := pstate s; slot := slot s; wk := wk s; tmo := tmo s; hnd := hnd s; ccheck := ccheck s; cbit := cbit s; cdis := cdis s; cco := cco s; para := para s; running := running s; rq := rq s; up := up s; ud := ud s; kp := kp s; kdur := v; kdl := kdl s; un := un s; cn := cn s; tm := tm s; ntm := ntm s; now := now s; nested := nested s; dropping := dropping s; oldk := oldk s; holder := holder s; tcall := tcall s; tok0 := tok0 s; ctok := ctok s; wsrc := wsrc s; nclr := nclr s; lastv := lastv s; tainted := tainted s; susp := susp s |}.
+  {| pstate := pstate s; slot := slot s; wk := wk s; tmo := tmo s; hnd := hnd s; ccheck := ccheck s; cbit := cbit s; cdis := cdis s; cco := cco s; para := para s; running := running s; rq := rq s; up := up s; ud := ud s; kp := kp s; kdur := v; kdl := kdl s; un := un s; cn := cn s; tm := tm s; ntm := ntm s; now := now s; nested := nested s; dropping := dropping s; oldk := oldk s; holder := holder s; tcall := tcall s; tok0 := tok0 s; ctok := ctok s; wsrc := wsrc s; nclr := nclr s; lastv := lastv s; tainted := tainted s; susp := susp s; ncall := ncall s |}.
 Definition set_kdl (v : option Z) (s : st) : st :=
-  {| pstate := pstate s; slot := slot s; wk := wk s; tmo := tmo s; hnd := hnd s; ccheck := ccheck s; cbit := cbit s; cdis := cdis s; cco := cco s; para := para s; running := running s; rq := rq s; up := up s; ud := ud s; kp := kp s; kdur := kdur s; kdl := v; un := un s; cn := cn s; tm := tm s; ntm := ntm s; now := now s; nested := nested s; dropping := dropping s; oldk := oldk s; holder := holder s; tcall := tcall s; tok0 := tok0 s; ctok := ctok s; wsrc := wsrc s; nclr := nclr s; lastv := lastv s; tainted := tainted s; susp := susp s |}.
+  {| pstate := pstate s; slot := slot s; wk := wk s; tmo := tmo s; hnd := hnd s; ccheck := ccheck s; cbit := cbit s; cdis := cdis s; cco := cco s; para := para s; running := running s; rq := rq s; up := up s; ud := ud s; kp := kp s; kdur := kdur s; kdl := v; un := un s; cn := cn s; tm := tm s; ntm := ntm s; now := now s; nested := nested s; dropping := dropping s; oldk := oldk s; holder := holder s; tcall := tcall s; tok0 := tok0 s; ctok := ctok s; wsrc := wsrc s; nclr := nclr s; lastv := lastv s; tainted := tainted s; susp := susp s; ncall := ncall s |}.
 Definition set_un (v : nat -> npc) (s : st) : st :=
-  {| pstate := pstate s; slot := slot s; wk := wk s; tmo := tmo s; hnd := hnd s; ccheck := ccheck s; cbit := cbit s; cdis := cdis s; cco := cco s; para := para s; running := running s; rq := rq s; up := up s; ud := ud s; kp := kp s; kdur := kdur s; kdl := kdl s; un := v; cn := cn s; tm := tm s; ntm := ntm s; now := now s; nested := nested s; dropping := dropping s; oldk := oldk s; holder := holder s; tcall := tcall s; tok0 := tok0 s; ctok := ctok s; wsrc := wsrc s; nclr := nclr s; lastv := lastv s; tainted := tainted s; susp := susp s |}.
+  {| pstate := pstate s; slot := slot s; wk := wk s; tmo := tmo s; hnd := hnd s; ccheck := ccheck s; cbit := cbit s; cdis := cdis s; cco := cco s; para := para s; running := running s; rq := rq s; up := up s; ud := ud s; kp := kp s; kdur := kdur s; kdl := kdl s; un := v; cn := cn s; tm := tm s; ntm := ntm s; now := now s; nested := nested s; dropping := dropping s; oldk := oldk s; holder := holder s; tcall := tcall s; tok0 := tok0 s; ctok := ctok s; wsrc := wsrc s; nclr := nclr s; lastv := lastv s; tainted := tainted s; susp := susp s; ncall := ncall s |}.
 Definition set_cn (v : nat -> cpc) (s : st) : st :=
-  {| pstate := pstate s; slot := slot s; wk := wk s; tmo := tmo s; hnd := hnd s; ccheck := ccheck s; cbit := cbit s; cdis := cdis s; cco := cco s; para := para s; running := running s; rq := rq s; up := up s; ud := ud s; kp := kp s; kdur := kdur s; kdl := kdl s; un := un s; cn := v; tm := tm s; ntm := ntm s; now := now s; nested := nested s; dropping := dropping s; oldk := oldk s; holder := holder s; tcall := tcall s; tok0 := tok0 s; ctok := ctok s; wsrc := wsrc s; nclr := nclr s; lastv := lastv s; tainted := tainted s; susp := susp s |}.
+  {| pstate := pstate s; slot := slot s; wk := wk s; tmo := tmo s; hnd := hnd s; ccheck := ccheck s; cbit := cbit s; cdis := cdis s; cco := cco s; para := para s; running := running s; rq := rq s; up := up s; ud := ud s; kp := kp s; kdur := kdur s; kdl := kdl s; un := un s; cn := v; tm := tm s; ntm := ntm s; now := now s; nested := nested s; dropping := dropping s; oldk := oldk s; holder := holder s; tcall := tcall s; tok0 := tok0 s; ctok := ctok s; wsrc := wsrc s; nclr := nclr s; lastv := lastv s; tainted := tainted s; susp := susp s; ncall := ncall s |}.
 Definition set_tm (v : nat -> tmst) (s : st) : st :=
-  {| pstate := pstate s; slot := slot s; wk := wk s; tmo := tmo s; hnd := hnd s; ccheck := ccheck s; cbit := cbit s; cdis := cdis s; cco := cco s; para := para s; running := running s; rq := rq s; up := up s; ud := ud s; kp := kp s; kdur := kdur s; kdl := kdl s; un := un s; cn := cn s; tm := v; ntm := ntm s; now := now s; nested := nested s; dropping := dropping s; oldk := oldk s; holder := holder s; tcall := tcall s; tok0 := tok0 s; ctok := ctok s; wsrc := wsrc s; nclr := nclr s; lastv := lastv s; tainted := tainted s; susp := susp s |}.
+  {| pstate := pstate s; slot := slot s; wk := wk s; tmo := tmo s; hnd := hnd s; ccheck := ccheck s; cbit := cbit s; cdis := cdis s; cco := cco s; para := para s; running := running s; rq := rq s; up := up s; ud := ud s; kp := kp s; kdur := kdur s; kdl := kdl s; un := un s; cn := cn s; tm := v; ntm := ntm s; now := now s; nested := nested s; dropping := dropping s; oldk := oldk s; holder := holder s; tcall := tcall s; tok0 := tok0 s; ctok := ctok s; wsrc := wsrc s; nclr := nclr s; lastv := lastv s; tainted := tainted s; susp := susp s; ncall := ncall s |}.
 Definition set_ntm (v : nat) (s : st) : st :=
-  {| pstate := pstate s; slot := slot s; wk := wk s; tmo := tmo s; hnd := hnd s; ccheck := ccheck s; cbit := cbit s; cdis := cdis s; cco := cco s; para := para s; running := running s; rq := rq s; up := up s; ud := ud s; kp := kp s; kdur := kdur s; kdl := kdl s; un := un s; cn := cn s; tm := tm s; ntm := v; now := now s; nested := nested s; dropping := dropping s; oldk := oldk s; holder := holder s; tcall := tcall s; tok0 := tok0 s; ctok := ctok s; wsrc := wsrc s; nclr := nclr s; lastv := lastv s; tainted := tainted s; susp := susp s |}.
+  {| pstate := pstate s; slot := slot s; wk := wk s; tmo := tmo s; hnd := hnd s; ccheck := ccheck s; cbit := cbit s; cdis := cdis s; cco := cco s; para := para s; running := running s; rq := rq s; up := up s; ud := ud s; kp := kp s; kdur := kdur s; kdl := kdl s; un := un s; cn := cn s; tm := tm s; ntm := v; now := now s; nested := nested s; dropping := dropping s; oldk := oldk s; holder := holder s; tcall := tcall s; tok0 := tok0 s; ctok := ctok s; wsrc := wsrc s; nclr := nclr s; lastv := lastv s; tainted := tainted s; susp := susp s; ncall := ncall s |}.
 Definition set_now (v : Z) (s : st) : st :=
-  {| pstate := pstate s; slot := slot s; wk := wk s; tmo := tmo s; hnd := hnd s; ccheck := ccheck s; cbit := cbit s; cdis := cdis s; cco := cco s; para := para s; running := running s; rq := rq s; up := up s; ud := ud s; kp := kp s; kdur := kdur s; kdl := kdl s; un := un s; cn := cn s; tm := tm s; ntm := ntm s; now := v; nested := nested s; dropping := dropping s; oldk := oldk s; holder := holder s; tcall := tcall s; tok0 := tok0 s; ctok := ctok s; wsrc := wsrc s; nclr := nclr s; lastv := lastv s; tainted := tainted s; susp := susp s |}.
+  {| pstate := pstate s; slot := slot s; wk := wk s; tmo := tmo s; hnd := hnd s; ccheck := ccheck s; cbit := cbit s; cdis := cdis s; cco := cco s; para := para s; running := running s; rq := rq s; up := up s; ud := ud s; kp := kp s; kdur := kdur s; kdl := kdl s; un := un s; cn := cn s; tm := tm s; ntm := ntm s; now := v; nested := nested s; dropping := dropping s; oldk := oldk s; holder := holder s; tcall := tcall s; tok0 := tok0 s; ctok := ctok s; wsrc := wsrc s; nclr := nclr s; lastv := lastv s; tainted := tainted s; susp := susp s; ncall := ncall s |}.
 Definition set_nested (v : bool) (s : st) : st :=
-  {| pstate := pstate s; slot := slot s; wk := wk s; tmo := tmo s; hnd := hnd s; ccheck := ccheck s; cbit := cbit s; cdis := cdis s; cco := cco s; para := para s; running := running s; rq := rq s; up := up s; ud := ud s; kp := kp s; kdur := kdur s; kdl := kdl s; un := un s; cn := cn s; tm := tm s; ntm := ntm s; now := now s; nested := v; dropping := dropping s; oldk := oldk s; holder := holder s; tcall := tcall s; tok0 := tok0 s; ctok := ctok s; wsrc := wsrc s; nclr := nclr s; lastv := lastv s; tainted := tainted s; susp := susp s |}.
+  {| pstate := pstate s; slot := slot s; wk := wk s; tmo := tmo s; hnd := hnd s; ccheck := ccheck s; cbit := cbit s; cdis := cdis s; cco := cco s; para := para s; running := running s; rq := rq s; up := up s; ud := ud s; kp := kp s; kdur := kdur s; kdl := kdl s; un := un s; cn := cn s; tm := tm s; ntm := ntm s; now := now s; nested := v; dropping := dropping s; oldk := oldk s; holder := holder s; tcall := tcall s; tok0 := tok0 s; ctok := ctok s; wsrc := wsrc s; nclr := nclr s; lastv := lastv s; tainted := tainted s; susp := susp s; ncall := ncall s |}.
 Definition set_dropping (v : bool) (s : st) : st :=
-  {| pstate := pstate s; slot := slot s; wk := wk s; tmo := tmo s; hnd := hnd s; ccheck := ccheck s; cbit := cbit s; cdis := cdis s; cco := cco s; para := para s; running := running s; rq := rq s; up := up s; ud := ud s; kp := kp s; kdur := kdur s; kdl := kdl s; un := un s; cn := cn s; tm := tm s; ntm := ntm s; now := now s; nested := nested s; dropping := v; oldk := oldk s; holder := holder s; tcall := tcall s; tok0 := tok0 s; ctok := ctok s; wsrc := wsrc s; nclr := nclr s; lastv := lastv s; tainted := tainted s; susp := susp s |}.
+  {| pstate := pstate s; slot := slot s; wk := wk s; tmo := tmo s; hnd := hnd s; ccheck := ccheck s; cbit := cbit s; cdis := cdis s; cco := cco s; para := para s; running := running s; rq := rq s; up := up s; ud := ud s; kp := kp s; kdur := kdur s; kdl := kdl s; un := un s; cn := cn s; tm := tm s; ntm := ntm s; now := now s; nested := nested s; dropping := v; oldk := oldk s; holder := holder s; tcall := tcall s; tok0 := tok0 s; ctok := ctok s; wsrc := wsrc s; nclr := nclr s; lastv := lastv s; tainted := tainted s; susp := susp s; ncall := ncall s |}.
 Definition set_oldk (v : nat) (s : st) : st :=
-  {| pstate := pstate s; slot := slot s; wk := wk s; tmo := tmo s; hnd := hnd s; ccheck := ccheck s; cbit := cbit s; cdis := cdis s; cco := cco s; para := para s; running := running s; rq := rq s; up := up s; ud := ud s; kp := kp s; kdur := kdur s; kdl := kdl s; un := un s; cn := cn s; tm := tm s; ntm := ntm s; now := now s; nested := nested s; dropping := dropping s; oldk := v; holder := holder s; tcall := tcall s; tok0 := tok0 s; ctok := ctok s; wsrc := wsrc s; nclr := nclr s; lastv := lastv s; tainted := tainted s; susp := susp s |}.
+  {| pstate := pstate s; slot := slot s; wk := wk s; tmo := tmo s; hnd := hnd s; ccheck := ccheck s; cbit := cbit s; cdis := cdis s; cco := cco s; para := para s; running := running s; rq := rq s; up := up s; ud := ud s; kp := kp s; kdur := kdur s; kdl := kdl s; un := un s; cn := cn s; tm := tm s; ntm := ntm s; now := now s; nested := nested s; dropping := dropping s; oldk := v; holder := holder s; tcall := tcall s; tok0 := tok0 s; ctok := ctok s; wsrc := wsrc s; nclr := nclr s; lastv := lastv s; tainted := tainted s; susp := susp s; ncall := ncall s |}.
 Definition set_holder (v : hold) (s : st) : st :=
-  {| pstate := pstate s; slot := slot s; wk := wk s; tmo := tmo s; hnd := hnd s; ccheck := ccheck s; cbit := cbit s; cdis := cdis s; cco := cco s; para := para s; running := running s; rq := rq s; up := up s; ud := ud s; kp := kp s; kdur := kdur s; kdl := kdl s; un := un s; cn := cn s; tm := tm s; ntm := ntm s; now := now s; nested := nested s; dropping := dropping s; oldk := oldk s; holder := v; tcall := tcall s; tok0 := tok0 s; ctok := ctok s; wsrc := wsrc s; nclr := nclr s; lastv := lastv s; tainted := tainted s; susp := susp s |}.
+  {| pstate := pstate s; slot := slot s; wk := wk s; tmo := tmo s; hnd := hnd s; ccheck := ccheck s; cbit := cbit s; cdis := cdis s; cco := cco s; para := para s; running := running s; rq := rq s; up := up s; ud := ud s; kp := kp s; kdur := kdur s; kdl := kdl s; un := un s; cn := cn s; tm := tm s; ntm := ntm s; now := now s; nested := nested s; dropping := dropping s; oldk := oldk s; holder := v; tcall := tcall s; tok0 := tok0 s; ctok := ctok s; wsrc := wsrc s; nclr := nclr s; lastv := lastv s; tainted := tainted s; susp := susp s; ncall := ncall s |}.
 Definition set_tcall (v : Z) (s : st) : st :=
-  {| pstate := pstate s; slot := slot s; wk := wk s; tmo := tmo s; hnd := hnd s; ccheck := ccheck s; cbit := cbit s; cdis := cdis s; cco := cco s; para := para s; running := running s; rq := rq s; up := up s; ud := ud s; kp := kp s; kdur := kdur s; kdl := kdl s; un := un s; cn := cn s; tm := tm s; ntm := ntm s; now := now s; nested := nested s; dropping := dropping s; oldk := oldk s; holder := holder s; tcall := v; tok0 := tok0 s; ctok := ctok s; wsrc := wsrc s; nclr := nclr s; lastv := lastv s; tainted := tainted s; susp := susp s |}.
+  {| pstate := pstate s; slot := slot s; wk := wk s; tmo := tmo s; hnd := hnd s; ccheck := ccheck s; cbit := cbit s; cdis := cdis s; cco := cco s; para := para s; running := running s; rq := rq s; up := up s; ud := ud s; kp := kp s; kdur := kdur s; kdl := kdl s; un := un s; cn := cn s; tm := tm s; ntm := ntm s; now := now s; nested := nested s; dropping := dropping s; oldk := oldk s; holder := holder s; tcall := v; tok0 := tok0 s; ctok := ctok s; wsrc := wsrc s; nclr := nclr s; lastv := lastv s; tainted := tainted s; susp := susp s; ncall := ncall s |}.
 Definition set_tok0 (v : bool) (s : st) : st :=
-  {| pstate := pstate s; slot := slot s; wk := wk s; tmo := tmo s; hnd := hnd s; ccheck := ccheck s; cbit := cbit s; cdis := cdis s; cco := cco s; para := para s; running := running s; rq := rq s; up := up s; ud := ud s; kp := kp s; kdur := kdur s; kdl := kdl s; un := un s; cn := cn s; tm := tm s; ntm := ntm s; now := now s; nested := nested s; dropping := dropping s; oldk := oldk s; holder := holder s; tcall := tcall s; tok0 := v; ctok := ctok s; wsrc := wsrc s; nclr := nclr s; lastv := lastv s; tainted := tainted s; susp := susp s |}.
+  {| pstate := pstate s; slot := slot s; wk := wk s; tmo := tmo s; hnd := hnd s; ccheck := ccheck s; cbit := cbit s; cdis := cdis s; cco := cco s; para := para s; running := running s; rq := rq s; up := up s; ud := ud s; kp := kp s; kdur := kdur s; kdl := kdl s; un := un s; cn := cn s; tm := tm s; ntm := ntm s; now := now s; nested := nested s; dropping := dropping s; oldk := oldk s; holder := holder s; tcall := tcall s; tok0 := v; ctok := ctok s; wsrc := wsrc s; nclr := nclr s; lastv := lastv s; tainted := tainted s; susp := susp s; ncall := ncall s |}.
 Definition set_ctok (v : bool) (s : st) : st :=
-  {| pstate := pstate s; slot := slot s; wk := wk s; tmo := tmo s; hnd := hnd s; ccheck := ccheck s; cbit := cbit s; cdis := cdis s; cco := cco s; para := para s; running := running s; rq := rq s; up := up s; ud := ud s; kp := kp s; kdur := kdur s; kdl := kdl s; un := un s; cn := cn s; tm := tm s; ntm := ntm s; now := now s; nested := nested s; dropping := dropping s; oldk := oldk s; holder := holder s; tcall := tcall s; tok0 := tok0 s; ctok := v; wsrc := wsrc s; nclr := nclr s; lastv := lastv s; tainted := tainted s; susp := susp s |}.
+  {| pstate := pstate s; slot := slot s; wk := wk s; tmo := tmo s; hnd := hnd s; ccheck := ccheck s; cbit := cbit s; cdis := cdis s; cco := cco s; para := para s; running := running s; rq := rq s; up := up s; ud := ud s; kp := kp s; kdur := kdur s; kdl := kdl s; un := un s; cn := cn s; tm := tm s; ntm := ntm s; now := now s; nested := nested s; dropping := dropping s; oldk := oldk s; holder := holder s; tcall := tcall s; tok0 := tok0 s; ctok := v; wsrc := wsrc s; nclr := nclr s; lastv := lastv s; tainted := tainted s; susp := susp s; ncall := ncall s |}.
 Definition set_wsrc (v : wake) (s : st) : st :=
-  {| pstate := pstate s; slot := slot s; wk := wk s; tmo := tmo s; hnd := hnd s; ccheck := ccheck s; cbit := cbit s; cdis := cdis s; cco := cco s; para := para s; running := running s; rq := rq s; up := up s; ud := ud s; kp := kp s; kdur := kdur s; kdl := kdl s; un := un s; cn := cn s; tm := tm s; ntm := ntm s; now := now s; nested := nested s; dropping := dropping s; oldk := oldk s; holder := holder s; tcall := tcall s; tok0 := tok0 s; ctok := ctok s; wsrc := v; nclr := nclr s; lastv := lastv s; tainted := tainted s; susp := susp s |}.
+  {| pstate := pstate s; slot := slot s; wk := wk s; tmo := tmo s; hnd := hnd s; ccheck := ccheck s; cbit := cbit s; cdis := cdis s; cco := cco s; para := para s; running := running s; rq := rq s; up := up s; ud := ud s; kp := kp s; kdur := kdur s; kdl := kdl s; un := un s; cn := cn s; tm := tm s; ntm := ntm s; now := now s; nested := nested s; dropping := dropping s; oldk := oldk s; holder := holder s; tcall := tcall s; tok0 := tok0 s; ctok := ctok s; wsrc := v; nclr := nclr s; lastv := lastv s; tainted := tainted s; susp := susp s; ncall := ncall s |}.
 Definition set_nclr (v : nat) (s : st) : st :=
-  {| pstate := pstate s; slot := slot s; wk := wk s; tmo := tmo s; hnd := hnd s; ccheck := ccheck s; cbit := cbit s; cdis := cdis s; cco := cco s; para := para s; running := running s; rq := rq s; up := up s; ud := ud s; kp := kp s; kdur := kdur s; kdl := kdl s; un := un s; cn := cn s; tm := tm s; ntm := ntm s; now := now s; nested := nested s; dropping := dropping s; oldk := oldk s; holder := holder s; tcall := tcall s; tok0 := tok0 s; ctok := ctok s; wsrc := wsrc s; nclr := v; lastv := lastv s; tainted := tainted s; susp := susp s |}.
+  {| pstate := pstate s; slot := slot s; wk := wk s; tmo := tmo s; hnd := hnd s; ccheck := ccheck s; cbit := cbit s; cdis := cdis s; cco := cco s; para := para s; running := running s; rq := rq s; up := up s; ud := ud s; kp := kp s; kdur := kdur s; kdl := kdl s; un := un s; cn := cn s; tm := tm s; ntm := ntm s; now := now s; nested := nested s; dropping := dropping s; oldk := oldk s; holder := holder s; tcall := tcall s; tok0 := tok0 s; ctok := ctok s; wsrc := wsrc s; nclr := v; lastv := lastv s; tainted := tainted s; susp := susp s; ncall := ncall s |}.
 Definition set_lastv (v : option verdict) (s : st) : st :=
-  {| pstate := pstate s; slot := slot s; wk := wk s; tmo := tmo s; hnd := hnd s; ccheck := ccheck s; cbit := cbit s; cdis := cdis s; cco := cco s; para := para s; running := running s; rq := rq s; up := up s; ud := ud s; kp := kp s; kdur := kdur s; kdl := kdl s; un := un s; cn := cn s; tm := tm s; ntm := ntm s; now := now s; nested := nested s; dropping := dropping s; oldk := oldk s; holder := holder s; tcall := tcall s; tok0 := tok0 s; ctok := ctok s; wsrc := wsrc s; nclr := nclr s; lastv := v; tainted := tainted s; susp := susp s |}.
+  {| pstate := pstate s; slot := slot s; wk := wk s; tmo := tmo s; hnd := hnd s; ccheck := ccheck s; cbit := cbit s; cdis := cdis s; cco := cco s; para := para s; running := running s; rq := rq s; up := up s; ud := ud s; kp := kp s; kdur := kdur s; kdl := kdl s; un := un s; cn := cn s; tm := tm s; ntm := ntm s; now := now s; nested := nested s; dropping := dropping s; oldk := oldk s; holder := holder s; tcall := tcall s; tok0 := tok0 s; ctok := ctok s; wsrc := wsrc s; nclr := nclr s; lastv := v; tainted := tainted s; susp := susp s; ncall := ncall s |}.
 Definition set_tainted (v : bool) (s : st) : st :=
-  {| pstate := pstate s; slot := slot s; wk := wk s; tmo := tmo s; hnd := hnd s; ccheck := ccheck s; cbit := cbit s; cdis := cdis s; cco := cco s; para := para s; running := running s; rq := rq s; up := up s; ud := ud s; kp := kp s; kdur := kdur s; kdl := kdl s; un := un s; cn := cn s; tm := tm s; ntm := ntm s; now := now s; nested := nested s; dropping := dropping s; oldk := oldk s; holder := holder s; tcall := tcall s; tok0 := tok0 s; ctok := ctok s; wsrc := wsrc s; nclr := nclr s; lastv := lastv s; tainted := v; susp := susp s |}.
+  {| pstate := pstate s; slot := slot s; wk := wk s; tmo := tmo s; hnd := hnd s; ccheck := ccheck s; cbit := cbit s; cdis := cdis s; cco := cco s; para := para s; running := running s; rq := rq s; up := up s; ud := ud s; kp := kp s; kdur := kdur s; kdl := kdl s; un := un s; cn := cn s; tm := tm s; ntm := ntm s; now := now s; nested := nested s; dropping := dropping s; oldk := oldk s; holder := holder s; tcall := tcall s; tok0 := tok0 s; ctok := ctok s; wsrc := wsrc s; nclr := nclr s; lastv := lastv s; tainted := v; susp := susp s; ncall := ncall s |}.
 Definition set_susp (v : bool) (s : st) : st :=
-  {| pstate := pstate s; slot := slot s; wk := wk s; tmo := tmo s; hnd := hnd s; ccheck := ccheck s; cbit := cbit s; cdis := cdis s; cco := cco s; para := para s; running := running s; rq := rq s; up := up s; ud := ud s; kp := kp s; kdur := kdur s; kdl := kdl s; un := un s; cn := cn s; tm := tm s; ntm := ntm s; now := now s; nested := nested s; dropping := dropping s; oldk := oldk s; holder := holder s; tcall := tcall s; tok0 := tok0 s; ctok := ctok s; wsrc := wsrc s; nclr := nclr s; lastv := lastv s; tainted := tainted s; susp := v |}.
+  {| pstate := pstate s; slot := slot s; wk := wk s; tmo := tmo s; hnd := hnd s; ccheck := ccheck s; cbit := cbit s; cdis := cdis s; cco := cco s; para := para s; running := running s; rq := rq s; up := up s; ud := ud s; kp := kp s; kdur := kdur s; kdl := kdl s; un := un s; cn := cn s; tm := tm s; ntm := ntm s; now := now s; nested := nested s; dropping := dropping s; oldk := oldk s; holder := holder s; tcall := tcall s; tok0 := tok0 s; ctok := ctok s; wsrc := wsrc s; nclr := nclr s; lastv := lastv s; tainted := tainted s; susp := v; ncall := ncall s |}.
+Definition set_ncall (v : nat) (s : st) : st :=
+  {| pstate := pstate s; slot := slot s; wk := wk s; tmo := tmo s; hnd := hnd s; ccheck := ccheck s; cbit := cbit s; cdis := cdis s; cco := cco s; para := para s; running := running s; rq := rq s; up := up s; ud := ud s; kp := kp s; kdur := kdur s; kdl := kdl s; un := un s; cn := cn s; tm := tm s; ntm := ntm s; now := now s; nested := nested s; dropping := dropping s; oldk := oldk s; holder := holder s; tcall := tcall s; tok0 := tok0 s; ctok := ctok s; wsrc := wsrc s; nclr := nclr s; lastv := lastv s; tainted := tainted s; susp := susp s; ncall := v |}.
 
 Definition upd {A} (f : nat -> A) (i : nat) (v : A) : nat -> A := fun j => if Nat.eqb j i then v else f j.
 Notation "x |> f" := (f x) (at level 50, left associativity, only parsing).
@@ -187,7 +190,7 @@ Definition init : st :=
      un := fun _ => NIdle; cn := fun _ => CIdle; tm := fun _ => TmNone; ntm := 0%nat; now := 0;
      nested := false; dropping := false; oldk := 0%nat;
      holder := HNone; tcall := 0; tok0 := false; ctok := false; wsrc := WNone; nclr := 0%nat;
-     lastv := None; tainted := false; susp := false |}.
+     lastv := None; tainted := false; susp := false; ncall := 0%nat |}.
 
 Inductive action :=
 | APark (d : option Z)        (* the parker calls park_timeout(d), d in ns *)
@@ -279,9 +282,10 @@ Definition kstep (s : st) : option st :=
             | Some d => Some (s |> set_kdl (Some (now s + d)) |> set_kp KArm)
             | None => None end
   | KArm => match kdur s with
-            | Some d => Some (s |> set_tm (upd (tm s) (ntm s) (TmArmed (now s + d))) |> set_ntm (S (ntm s)) |> set_kp KHandle)
+            | Some d => Some (s |> set_tm (upd (tm s) (ntm s) (TmArmed (now s + d))) |> set_hnd (Some (ntm s))
+                               |> set_ntm (S (ntm s)) |> set_kp KHandle)
             | None => None end
-  | KHandle => Some (s |> set_hnd (match kdur s with Some _ => Some (pred (ntm s)) | None => None end) |> set_kp KGon)
+  | KHandle => Some (s |> set_kp KGon)   (* the handle of the entry just armed ([hnd], set with KArm) is published; the old one is null *)
   | KGon => Some (s |> set_wk true |> set_kp KStore)
   | KStore => Some (s |> set_slot true |> set_kp (if fixF8 then KChk else KSload))
   | KChk => Some (s |> set_kp (match kdl s with Some t => if t <=? now s then KStake else KSload | None => KSload end))
@@ -314,7 +318,7 @@ Definition step (s : st) (a : action) : option st :=
       match up s with
       | UIdle => if running s && match d with Some x => 0 <=? x | None => true end
                  then Some (s |> set_ud d |> set_tcall (now s) |> set_tok0 (pstate s) |> set_ctok false
-                              |> set_wsrc WNone |> set_susp false |> set_up UCp1Load)
+                              |> set_wsrc WNone |> set_susp false |> set_ncall (S (ncall s)) |> set_up UCp1Load)
                  else None
       | _ => None end
   | AU => ustep s
@@ -337,7 +341,8 @@ Definition step (s : st) (a : action) : option st :=
                               |> set_un (fun _ => NIdle)
                               |> set_cn (fun i => match cn s i with CTake => CTakeS | x => x end)
                               |> set_tm (fun _ => TmNone) |> set_ntm 0%nat
-                              |> set_nested false |> set_nclr 0%nat |> set_tainted false |> set_ctok false |> set_wsrc WNone)
+                              |> set_nested false |> set_nclr 0%nat |> set_tainted false |> set_ctok false |> set_wsrc WNone
+                              |> set_ncall 0%nat)
                  else None
       | _ => None end
   | AK => kstep s
